@@ -54,6 +54,14 @@ class Simplifier(walkers.dag.DagWalker):
             fnode = self.manager.Real(Fraction(value))
         return fnode
 
+    def _simplify_rebuilt(self, expression: FNode) -> FNode:
+        """Simplifies an expression built inside a walk_* method; walk() is not
+        re-entrant, so a nested simplifier with the same settings is used."""
+        nested = Simplifier(self.environment)
+        nested.static_fluents = self.static_fluents
+        nested.problem = self.problem
+        return nested.simplify(expression)
+
     def simplify(self, expression: FNode) -> FNode:
         """Performs basic simplification of the given expression.
 
@@ -221,9 +229,13 @@ class Simplifier(walkers.dag.DagWalker):
                             vars.remove(variable.variable())
                             break
         if vars:
-            return self.manager.Exists(new_arg, *vars)
+            res = self.manager.Exists(new_arg, *vars)
         else:
-            return new_arg
+            res = new_arg
+        if new_arg is not args[0]:
+            # the substitutions can enable further simplifications
+            res = self._simplify_rebuilt(res)
+        return res
 
     def walk_forall(self, expression: FNode, args: List[FNode]) -> FNode:
         assert len(args) == 1
@@ -404,7 +416,11 @@ class Simplifier(walkers.dag.DagWalker):
             if right.constant_value() < 0:
                 value = -right.constant_value()
                 fnode_constant_values = self._number_to_fnode(value)
-                return self.manager.Plus(left, fnode_constant_values)
+                # left can be a sum: let walk_plus flatten it and fold its constant
+                return self.walk_plus(
+                    self.manager.Plus(left, fnode_constant_values),
+                    [left, fnode_constant_values],
+                )
             else:
                 return self.manager.Minus(left, right)
         else:
